@@ -345,46 +345,65 @@ def run_check_locked(pid, tier, seed, replay=None, n_override=None):
         rp = json.load(open(replay))
         seed = rp.get("seed", seed)
         only_case = rp.get("case")
-    for hi, h in enumerate(cfg.get("harness", [])):
+    # harnesses run a few at a time (VERIF_HARNESS_JOBS, default 3): each is a separate go test process
+    # writing into its own directory; results are merged in the order of the config
+    def one_harness(hi, h):
+        r = dict(hi=hi, broken=[], stats=None, hits=[], nf=0, mism=[], log=[])
         hdir = os.path.join(out_root, "h%d" % hi)
-        if replay and rp.get("harness", hi) != hi:
-            continue
-        if only_h is not None and hi not in only_h:
-            continue
-        rc, out = run_harness(h, tier, seed, hdir, log, n_override, only_case)
+        rc, out = run_harness(h, tier, seed, hdir, r["log"], n_override, only_case)
         if rc != 0:
             # a failing harness run is a broken tie unless monitors explain it
-            broken.append(("correspondence harness %s %s" % (h["pkg"], h["run"]), out[-2500:]))
+            r["broken"].append(("correspondence harness %s %s" % (h["pkg"], h["run"]), out[-2500:]))
         sp = os.path.join(hdir, "stats.json")
         if os.path.exists(sp):
             st = json.load(open(sp))
             st["harness"] = "%s %s" % (h["pkg"], h["run"])
-            stats_all.append(st)
+            r["stats"] = st
         elif rc == 0:
-            broken.append(("correspondence harness %s wrote no stats" % h["run"], out[-800:]))
+            r["broken"].append(("correspondence harness %s wrote no stats" % h["run"], out[-800:]))
         mp = os.path.join(hdir, "monitor.jsonl")
         if os.path.exists(mp):
             for line in open(mp):
                 line = line.strip()
                 if line:
-                    r = json.loads(line)
-                    r["harness"] = hi
-                    monitor_hits.append(r)
+                    x = json.loads(line)
+                    x["harness"] = hi
+                    r["hits"].append(x)
         # a harness borrowed from another property records cases for that property's model
         hgroup = h.get("group", group)
         hbuilt = built
         if hgroup != group:
-            hbuilt = build_group(hgroup, log)
+            hbuilt = build_group(hgroup, r["log"])
             if not hbuilt:
-                broken.append(("Coq build of group " + hgroup, log[-1][-2500:]))
+                r["broken"].append(("Coq build of group " + hgroup, r["log"][-1][-2500:]))
         if hbuilt:
-            nf, mism, errs = run_case_files(hgroup, hdir, log)
-            n_case_files += nf
+            nf, mism, errs = run_case_files(hgroup, hdir, r["log"])
+            r["nf"] = nf
             for m in mism:
                 m["harness"] = hi
-            mismatches += mism
+            r["mism"] = mism
             for e in errs:
-                broken.append(("evaluation of recorded cases in Coq", e))
+                r["broken"].append(("evaluation of recorded cases in Coq", e))
+        return r
+
+    todo = []
+    for hi, h in enumerate(cfg.get("harness", [])):
+        if replay and rp.get("harness", hi) != hi:
+            continue
+        if only_h is not None and hi not in only_h:
+            continue
+        todo.append((hi, h))
+    jobs = max(1, int(os.environ.get("VERIF_HARNESS_JOBS", "3")))
+    with ThreadPoolExecutor(max_workers=jobs) as ex:
+        results = list(ex.map(lambda a: one_harness(*a), todo))
+    for r in results:
+        log += r["log"]
+        broken += r["broken"]
+        if r["stats"] is not None:
+            stats_all.append(r["stats"])
+        monitor_hits += r["hits"]
+        n_case_files += r["nf"]
+        mismatches += r["mism"]
 
     # 5. decide
     known = [k for k in load_known() if k["property"] == pid]
